@@ -258,25 +258,44 @@ def infixmap(rep, meta, sfx):
         return
     want = {"sequence_operator": "Seq", "choice_operator": "Choice"}
     found = set()
-    for (n, names, catch) in rule_matches(fn):
-        if not (names & set(want)):
-            continue
-        for arm in n["arms"]:
-            for v in hirq.pat_variants(arm["pat"]):
-                nm = v.split("::")[-1]
-                if nm not in want:
-                    continue
-                found.add(nm)
-                ctors = [x for x in walk(arm["body"]) if kind(x) == "Call" and isinstance(callee(x), str) and callee(x).startswith(PE + "::")]
-                r.instance(nm, where(arm["body"]), str([callee(x).split("::")[-1] for x in ctors]))
-                ok = len(ctors) == 1 and callee(ctors[0]) == PE + "::" + want[nm]
-                if ok:
-                    # operand order: first Box::new(..) mentions lhs, second rhs
-                    a0 = hirq.expr_text(ctors[0]["args"][0])
-                    a1 = hirq.expr_text(ctors[0]["args"][1])
-                    ok = "lhs" in a0 and "rhs" in a1
-                if not ok:
-                    r.violation(nm, where(arm["body"]), "%s is not mapped to %s(lhs, rhs)" % (nm, want[nm]))
+    # the infix mapping may live in consume_expr itself (a closure) or in a function nested in it
+    hosts = [fn] + [b for b in meta.bodies if b["path"].startswith(fn["path"] + "::") and b.get("body") is not None
+                    and b.get("dk") in ("Fn", "AssocFn")]
+    for host in hosts:
+        hlets = hirq.lets(host["body"])
+        for (n, names, catch) in rule_matches(host):
+            if not (names & set(want)):
+                continue
+            # `let combine = match op.as_rule() { seq => ParserExpr::Seq, .. }; .. combine(Box::new(lhs), Box::new(rhs))`
+            via_local = None
+            for lid, (init, st) in hlets.items():
+                if peel(init) is n:
+                    calls = [x for x in walk(host["body"]) if kind(x) == "Call" and isinstance(callee(x), tuple) and callee(x)[1] == lid]
+                    if len(calls) == 1:
+                        via_local = calls[0]
+            for arm in n["arms"]:
+                for v in hirq.pat_variants(arm["pat"]):
+                    nm = v.split("::")[-1]
+                    if nm not in want:
+                        continue
+                    found.add(nm)
+                    ctors = [x for x in walk(arm["body"]) if kind(x) == "Call" and isinstance(callee(x), str) and callee(x).startswith(PE + "::")]
+                    values = [x for x in walk(arm["body"]) if kind(x) == "Path" and x.get("res") == "def"
+                              and str(x.get("path", "")).startswith(PE + "::") and not any(x is peel(cx["f"]) for cx in ctors)]
+                    r.instance(nm, where(arm["body"]), str([callee(x).split("::")[-1] for x in ctors] + [x["path"].split("::")[-1] for x in values]))
+                    ok = False
+                    if len(ctors) == 1 and not values and callee(ctors[0]) == PE + "::" + want[nm]:
+                        # operand order: first Box::new(..) mentions lhs, second rhs
+                        a0 = hirq.expr_text(ctors[0]["args"][0])
+                        a1 = hirq.expr_text(ctors[0]["args"][1])
+                        ok = "lhs" in a0 and "rhs" in a1
+                    elif not ctors and len(values) == 1 and values[0]["path"] == PE + "::" + want[nm] and via_local is not None \
+                            and len(via_local["args"]) == 2:
+                        a0 = hirq.expr_text(via_local["args"][0])
+                        a1 = hirq.expr_text(via_local["args"][1])
+                        ok = "lhs" in a0 and "rhs" in a1
+                    if not ok:
+                        r.violation(nm, where(arm["body"]), "%s is not mapped to %s(lhs, rhs)" % (nm, want[nm]))
     for nm in want:
         if nm not in found:
             r.violation(nm, where(fn["body"]), "no infix arm for %s" % nm)
